@@ -1,7 +1,7 @@
 """C01 - rendered output displays the text with exactly the reported per-character styles."""
 from .. import obs as O
 from .common import (Contract, FLAG_COMBOS, ansi_values, history, render_failures, run_cases, tier_sizes,
-                     transitions, safe_obs)
+                     transitions, safe_obs, transition_values)
 
 PROP = 'C01'
 RULE = ('case = one rendering call (to_str/str/format without format spec) on a value reachable by a random '
@@ -13,7 +13,7 @@ ASSUMPTIONS = ['SGR effect-group model of DESIGN 2.1 is the meaning of "conformi
                'ansi_settings_at/base_str are the observation channel for the reported styles',
                'values with ill-formed setting texts or ESC in the text are grey (not judged)']
 MIN_EVAL = 300
-CASES = {'quick': 60, 'thorough': 1500}
+CASES = {'quick': 480, 'thorough': 9000}
 WEIGHTS = {'apply': 12, 'remove': 5, 'query': 0.2, 'find_settings': 0.2, 'settings_at': 0.2, 'to_str': 0.3,
            'format': 0.5}
 
@@ -97,6 +97,14 @@ def drive(ctx, mon, tier, only_case=None):
     sz = tier_sizes(tier)
 
     def body(rng, ex, case):
+        if case == 0:
+            # systematic part: every kind of transition of every effect group (DESIGN 4, C01 workload)
+            with mon.quiet():
+                vals = list(transition_values(L, rng, ctx.shard, ctx.extra.get('nshards', 1)))
+            ctx.extra['n_transition_values'] = len(vals)
+            for v in vals:
+                probe_value(ctx, mon, v)
+            return
         profile = 'mixed' if rng.random() < 0.35 else 'wf'
         history(L, rng, ex, rng.randint(1, sz['nops']), sz['maxlen'], profile, WEIGHTS)
         for v in ansi_values(L, ex):
